@@ -79,7 +79,7 @@ class LenaSplit(object):
         # copied from LenaSequence
         try:
             self._set_context({})
-        except LenaKeyError:
+        except exceptions.LenaKeyError:
             pass
 
     def _repr_nested(self, base_indent="", indent=" "*4, el_separ=",\n"):
